@@ -8,7 +8,8 @@ CONSTANTS
   MaxMitm = 2
   MaxSmall = 3
   AuthChoices <- AuthAll
+  Segs = {0, 1, 7, 700, 1041, 1043}
 VIEW view
 INVARIANTS TypeOK Framing StreamIntegrity NoLossWhenUntouched
-PROPERTIES ReadContract TamperDetected PeerIdentityIsChallengeSigner
+PROPERTIES ReadContract TamperDetected PeerIdentityIsChallengeSigner CarrierTransparent
 CHECK_DEADLOCK FALSE
